@@ -1,0 +1,19 @@
+//go:build verif
+
+package secs1
+
+import "github.com/arloliu/go-secs/v2/hsms"
+
+// This file exists only under the `verif` build tag. It exports a seam for the external
+// verification harness (/verif, properties C09/C20): it adds code only.
+
+// VerifCore returns the shared hsms engine behind a SECS-I connection (the value New wrapped), so
+// that hsms.VerifSetSendHooks can reach it; nil when c was not built by New.
+func VerifCore(c Connection) hsms.Connection {
+	cc, ok := c.(*connection)
+	if !ok {
+		return nil
+	}
+
+	return cc.Connection
+}
